@@ -557,43 +557,55 @@ def run(ctx):
         acc["tgen"] += time.time() - t1
         process("random", cases)
 
-    # ---- first: corpus, full alphabet to length 2, reduced alphabet to length 3, some random sequences
-    corpus = []
-    cp = vlib.VERIF / "corpus" / "C20" / "cases.txt"
-    if cp.exists():
-        corpus = [ln.strip() for ln in cp.read_text().split("\n") if ln.strip() and not ln.startswith("#")]
-    for ln in corpus:
-        sp = Spec()
-        for tok in ln.split()[3:]:
-            sp.apply(tok, hist)
-    process("corpus", [(ln, spec_line(ln), "corpus") for ln in corpus])
-    others = ["s", "m", "i", "d"]
-    rot = others[ctx.seed % 4:] + others[:ctx.seed % 4]
-    n_full2 = enum_block("full-alphabet<=2", 2, TAGS, True)
-    n_red3 = enum_block("reduced<=3[p,%s]" % rot[0], 3, ["p", rot[0]], False)
-    g = ctx.gen("any")
-    nrand_a = 60
-    random_block(g, 0, nrand_a)
-
-    # ---- then the large enumerations (skipped once a failure is known: the replay is already concrete)
-    rules = []
-    companions = rot
-    n4 = 0
-    for o in companions:
-        if o != rot[0]:
-            enum_block("reduced<=3[p,%s]" % o, 3, ["p", o], False)
-        n4 += enum_block("reduced=4[p,%s]" % o, 4, ["p", o], False, minlen=4)
-    rules.append("reduced alphabet, for each companion type T in {%s}, held types {probe,T}: all sequences of length 1..4 (%d of length 1..3 for the "
-                 "first T, %d of length 4 in total)" % (", ".join(TAG_NAME[o] for o in companions), n_red3, n4))
-    if ctx.quick():
-        nrand_b = 340
+    corpus, rules, n_full2, nrand_a, nrand_b = [], [], 0, 0, 0
+    if ctx.replay:
+        # re-run the operation sequence recorded in a replay file
+        import json
+        line = json.load(open(ctx.replay)).get("replay", {}).get("input_line")
+        if line:
+            sp = Spec()
+            for tok in line.split()[3:]:
+                sp.apply(tok, hist)
+            process("replay", [(line, spec_line(line), "replay")])
+        rules.append("replay of %s" % ctx.replay)
     else:
-        n5 = enum_block("reduced=5[p]", 5, ["p"], False, minlen=5)
-        rules.append("reduced alphabet, held type {probe}: all %d sequences of length 5" % n5)
-        n3f = enum_block("full-alphabet=3", 3, TAGS, True, minlen=3)
-        rules.append("full alphabet: all %d sequences of length 3" % n3f)
-        nrand_b = 6000
-    random_block(g, nrand_a, nrand_b)
+        # ---- first: corpus, full alphabet to length 2, reduced alphabet to length 3, some random sequences
+        corpus = []
+        cp = vlib.VERIF / "corpus" / "C20" / "cases.txt"
+        if cp.exists():
+            corpus = [ln.strip() for ln in cp.read_text().split("\n") if ln.strip() and not ln.startswith("#")]
+        for ln in corpus:
+            sp = Spec()
+            for tok in ln.split()[3:]:
+                sp.apply(tok, hist)
+        process("corpus", [(ln, spec_line(ln), "corpus") for ln in corpus])
+        others = ["s", "m", "i", "d"]
+        rot = others[ctx.seed % 4:] + others[:ctx.seed % 4]
+        n_full2 = enum_block("full-alphabet<=2", 2, TAGS, True)
+        n_red3 = enum_block("reduced<=3[p,%s]" % rot[0], 3, ["p", rot[0]], False)
+        g = ctx.gen("any")
+        nrand_a = 60
+        random_block(g, 0, nrand_a)
+
+        # ---- then the large enumerations (skipped once a failure is known: the replay is already concrete)
+        rules = []
+        companions = rot
+        n4 = 0
+        for o in companions:
+            if o != rot[0]:
+                enum_block("reduced<=3[p,%s]" % o, 3, ["p", o], False)
+            n4 += enum_block("reduced=4[p,%s]" % o, 4, ["p", o], False, minlen=4)
+        rules.append("reduced alphabet, for each companion type T in {%s}, held types {probe,T}: all sequences of length 1..4 (%d of length 1..3 for the "
+                     "first T, %d of length 4 in total)" % (", ".join(TAG_NAME[o] for o in companions), n_red3, n4))
+        if ctx.quick():
+            nrand_b = 340
+        else:
+            n5 = enum_block("reduced=5[p]", 5, ["p"], False, minlen=5)
+            rules.append("reduced alphabet, held type {probe}: all %d sequences of length 5" % n5)
+            n3f = enum_block("full-alphabet=3", 3, TAGS, True, minlen=3)
+            rules.append("full alphabet: all %d sequences of length 3" % n3f)
+            nrand_b = 6000
+        random_block(g, nrand_a, nrand_b)
 
     prop_bad, corr_bad, mech = acc["prop_bad"], acc["corr_bad"], acc["mech"]
     if acc["skipped_blocks"]:
@@ -622,7 +634,7 @@ def run(ctx):
                       {"harness": "h_any", "correspondence": "BFL.AnyBox.step vs bfl::any::any", "input_line": line,
                        "observed": h[:3000], "model": d[:3000]}, no_input=True)
 
-    complete = not acc["notrun"] and not acc["skipped_blocks"]
+    complete = not acc["notrun"] and not acc["skipped_blocks"] and not ctx.replay
     ctx.coverage.update({
         "evaluations": acc["ran"], "distinct_nontrivial": len(acc["nontrivial"]), "distinct": len(acc["distinct"]),
         "operations_executed": acc["ops"],
